@@ -99,6 +99,16 @@ class Lay:
                     else:
                         cur = self._seq(cur, self.node(sn, env))
                 return cur
+            if re.search(r"^std::option::Option::<.*>::(map|and_then|map_or|map_or_else|inspect|filter|is_some_and|is_none_or)$|^std::option::Option::<T>::(map|and_then|map_or|map_or_else|inspect|filter)$", c.get("def", "")):
+                # `opt.map(|x| BODY)`: BODY runs when the option is Some, not at all when it is None -- like `if let Some(x) = opt { BODY }`
+                cur = {((), None)}
+                for sn in n.get("sub", []):
+                    if sn.get("k") == "closure":
+                        body = self.nodes(sn["body"], env)
+                        cur = self._seq(cur, body | {((), None)})
+                    else:
+                        cur = self._seq(cur, self.node(sn, env))
+                return cur
             self._consumed = False
             callp = self.call(n, env)
             consumed = self._consumed
